@@ -76,4 +76,10 @@ theorem int_le_of_rat (i X : Int) (y : Rat) (h1 : (i : Rat) ≤ y) (h2 : y < (X 
   have := Rat.intCast_lt_intCast.mp h
   omega
 
+theorem div_le_iff {a b c : Rat} (hb : 0 < b) : a / b ≤ c ↔ a ≤ c * b := by
+  rw [← Rat.not_lt, ← Rat.not_lt, Rat.lt_div_iff hb]
+
+theorem le_div_iff {a b c : Rat} (hc : 0 < c) : a ≤ b / c ↔ a * c ≤ b := by
+  rw [← Rat.not_lt, ← Rat.not_lt, Rat.div_lt_iff hc]
+
 end Py
